@@ -201,7 +201,7 @@ theorem parseStreamObject_goodq (env : Env R) (henv : EnvOk env) (buf : Buf) (hs
     (dict : Dict R) (id : Nat × Nat) (h : pos ≤ buf.size) :
     GoodQ (fun v => ∃ inner, v = .stream dict inner) buf pos (parseStreamObject env buf pos dict id) := by
   unfold parseStreamObject
-  rcases nextStream_spec buf pos h with he | ⟨p1, hp1, h1, h2⟩
+  rcases nextStream_cases buf pos h with he | ⟨p1, hp1, h1, h2⟩
   · left; simp [he]
   · rw [hp1]; simp only [Out.bind_ok]
     apply goodq_bind
